@@ -72,7 +72,7 @@ func Draw(t *rapid.T) *pbt.Case {
 		sg = gen.MarkerFree()
 	}
 	c.SetStr("alphabet", alpha)
-	g := gen.Default(sg).Boost(2, "uwrapnofmt", "uwrapfmtold", "uleaffmtold", "uwrapformatter", "pkgmsg", "goerrorf", "uwrapsafefmt", "uleafsafefmt").With("netopsrc")
+	g := gen.Default(sg).Boost(2, "uwrapnofmt", "uwrapfmtold", "uleaffmtold", "uwrapformatter", "pkgmsg", "goerrorf", "uwrapsafefmt", "uleafsafefmt").With("netopsrc", "uwrapbothfmt", "uwrapbothfmt")
 	c.Spec = g.Draw(t, rapid.IntRange(1, maxB).Draw(t, "budget"))
 	c.SetStr("variant", rapid.SampledFrom([]string{"local", "decoded", "opaque", "legacy-barrier"}).Draw(t, "variant"))
 	return c
